@@ -123,7 +123,7 @@ func GenConfig(r *Rng, store string) Config {
 	c.ZeroEOF = r.Chance(1, 5)
 	nroots := Pick(r, []int{0, 1, 1, 1, 2, 3})
 	if r.Chance(1, 40) {
-		nroots = Pick(r, []int{23, 24, 25, 256}) // the CBOR array head of the roots grows at 24 and at 256 entries
+		nroots = Pick(r, []int{23, 24, 25, 256, 1030}) // the CBOR array head of the roots grows at 24 and at 256 entries; 1030: beyond any small-N shortcut
 	}
 	c.Roots = []BlkSpec{}
 	for i := 0; i < nroots; i++ {
